@@ -144,6 +144,9 @@ func travWorker(c *evid.Ctx, prop string) {
 		}()
 	}
 	wg.Wait()
+	if prop == "C04" {
+		c04server(c)
+	}
 	// Evidence floor: a run that observed nothing decides nothing.
 	if c.Counter("stall rendezvous checked") == 0 || c.Counter("scheduled completions") == 0 {
 		c.Inconclusive("no stall or no completion observed")
